@@ -63,6 +63,19 @@ class PurityReport:
             )
 
 
+def is_private_cache(an: Effects, o: Origin) -> bool:
+    """an attribute store whose field is read by no function other than the one that writes it (lazy memoisation of
+    a derived value in a private slot) does not change any state a caller can observe"""
+    if not o.fld or o.fld in ("*", "<fields>") or not o.what.startswith("attribute store"):
+        return False
+    if not o.fld.startswith("_"):
+        return False
+    top = o.func
+    readers = an.attr_readers.get(o.fld, set())
+    # nested origin functions are attributed to their top-level function
+    return all(top == r or top.startswith(r + ".") for r in readers)
+
+
 def check_params_pure(
     ctx: Ctx,
     rule: str,
@@ -88,6 +101,9 @@ def check_params_pure(
         via: Dict[str, List[Origin]] = {}
         for (d, a, o) in slot.values():
             if exempt and ((o.func, o.fld) in exempt or (o.func, "*any*") in exempt):
+                continue
+            if is_private_cache(an, o):
+                ctx.ok(rule, fi, f"`{p}`.{o.fld} is a private cache of {o.func.split('.')[-1]}", f"`{o.text[:60]}` writes a field that no other function of the package reads: not observable state", fi.node, nontrivial=False)
                 continue
             if min_depth_for and d < min_depth_for.get(p, 0):
                 continue
